@@ -215,7 +215,8 @@ PROPS["C09"] = dict(
         R("C09.mtu_honest", "swarms", "TestC09MTU", 400, 40000, shrink=10, quick=dict(checks=400, shards=4, timeout=600)),
         R("C09.mux_several_channels", "swarms", "TestC09MuxChannels", 200, 25000, shrink=10),
         R("C09.ssh_boundary", "swarms", "TestC09SSH", 80, 4000),
-        R("C09.fragment_boundaries", "swarms", "TestC09FragmentBoundaries", 150, 10000, shrink=10),
+        R("C09.fragment_boundaries", "swarms", "TestC09FragmentBoundaries", 150, 10000, shrink=10, quick=dict(shards=3, timeout=600)),
+        R("C09.deadline_during_tell", "swarms", "TestC09Deadline", 60, 3000, shrink=10, quick=dict(shards=2, timeout=600)),
     ],
 )
 
@@ -242,6 +243,7 @@ PROPS["C10"] = dict(
     assumptions=["senders are honest and do not reuse message ids within the reassembly window"],
     subs=[
         R("C10.fragswarm", "swarms", "TestC10Frag", 1500, 60000),
+        R("C10.fragment_counts", "swarms", "TestC10FragmentCounts", 90, 6000, shrink=10, quick=dict(shards=3, timeout=600)),
         R("C10.mbapp", "swarms", "TestC10Mbapp", 1000, 50000, quick=dict(checks=1000, shards=2, timeout=600)),
         R("C10.mbapp_reply_vs_tell", "swarms", "TestC10MbappBidi", 120, 12000, quick=dict(checks=120, shards=2, timeout=600)),
         P("C10.two_message_interleavings", "swarms", "TestC10Exhaustive"),
